@@ -47,14 +47,21 @@ META = {
         "and the ANY fragment must match every character (DOTALL). A rewrite of the raw pattern in front of the character scan "
         "(re.sub / str.replace with constant arguments) is applied to every abstract pattern and the composed translation must still "
         "equal the documented machine up to ANY* ANY* = ANY* (an escape-unaware collapse of '**' fails on backslash-star-star); "
-        "case/whitespace-changing string methods on the pattern are rejected. "
-        "R2 (API): match_with_wildcard returns True exactly under `pattern is None`, otherwise fullmatch of the unmodified name against "
+        "case/whitespace-changing string methods on the pattern are rejected. Constant text wrapped around the accumulator at "
+        "re.compile (`regex + '$'`) is part of the translation; an end anchor after everything is zero-width under fullmatch, an "
+        "anchor anywhere else is a mismatch. "
+        "R2 (API): match_with_wildcard returns True exactly under `pattern is None`, otherwise fullmatch (or match of an "
+        "expression the translator ends in \\Z - not `$`, which also matches before a final line feed) of the unmodified name against "
         "the regex built from the unmodified pattern; the cached translator has the pattern as its only parameter, reads no mutable "
         "global, and every call passes the whole pattern. "
         "R3 (the two filter functions): a role inference over the nested loops (inventory key / domain / object type / name, item "
         "fields; the Sphinx `domain:type` key cut at the same colon as from_sphinx and the native loader cut it; the 4-tuple item) shows that each coordinate is tested against its own filter - through "
         "match_with_wildcard or through _create_regex(<filter>).fullmatch, never Pattern.match/search and never on the joined "
-        "domain:type key -, that all four tests dominate every yield (an `f is None or ...` disjunct is accepted), that the InvMatch "
+        "domain:type key -, that all four tests dominate every yield (an `f is None or ...` disjunct is accepted; a boolean flag variable is judged "
+        "by every value it can have been given; a plain string test - startswith, ==, in - of a coordinate as a fast path is "
+        "rejected unless the function looks at the escape character, then ANALYSIS-ERROR), generator helpers of the module "
+        "that the loops iterate are followed (roles from what they yield; their loops, skips and key split are judged too) and "
+        "one-expression helpers are inlined before expressions are compared, that the InvMatch "
         "fields are filled from the same roles in both representations (the '-' text normalisation agrees with from_sphinx), that "
         "iteration keeps the mappings' own order, that every loop visits every entry of its level (the iterable is never narrowed by "
         "using a filter as a literal key unless that alternative is chosen only under `'*' not in <filter>`), that no break/return cuts "
@@ -65,7 +72,8 @@ META = {
         "render_link_inventory per number of path parts (1, 2, 3; IndexError under suppress/except, tuple assignments evaluated as a "
         "whole, length guards, None padding) shows every given part bound to its filter at the lookup; the inventory stored for a "
         "configuration key is fetched with that entry's base URL and is not memoised under a key lacking it (several stores and "
-        "memo fills are judged one by one); inside myst_parser.inventory every function that receives `base_url` hands it on "
+        "memo fills are judged one by one); no store into self._inventories is control-dependent on the link's own filters, so "
+        "the inventories are registered in configuration order; inside myst_parser.inventory every function that receives `base_url` hands it on "
         "unchanged to each package callee that takes one and puts it into the InventoryType it builds (fetch_inventory -> load -> "
         "_load_v1/_load_v2); on the CFG, evaluated "
         "under the abstract match count (0, 1, 2, 3+; star-unpacking of the match list understood; the size of a collection derived from the matches - set / comprehension "
@@ -148,6 +156,8 @@ def _elem_source(seq: ast.expr, i: int) -> ast.expr:
         return seq.elts[i]
     if isinstance(seq, ast.BinOp) and isinstance(seq.op, ast.Add) and _is_none_padding(seq.right):
         return _elem_source(seq.left, i)  # element i of the left operand if present, else None
+    if isinstance(seq, (ast.Tuple, ast.List)) and seq.elts and isinstance(seq.elts[0], ast.Starred) and all(isinstance(x, ast.Constant) and x.value is None for x in seq.elts[1:]):
+        return _elem_source(seq.elts[0].value, i)  # [*X, None, None]: X padded with None
     if isinstance(seq, ast.Subscript) and isinstance(seq.slice, ast.Slice) and seq.slice.step is None and (seq.slice.lower is None or (isinstance(seq.slice.lower, ast.Constant) and seq.slice.lower.value == 0)):
         up = seq.slice.upper
         if up is None or (isinstance(up, ast.Constant) and type(up.value) is int and i < up.value):
@@ -466,11 +476,17 @@ class Transducer:
                 if nxt not in seen:
                     seen.add(nxt)
                     work.append(nxt)
+        v = self.ret.value
+        if not (isinstance(v, ast.Call) and v.args):
+            raise Unsupported(f"{self.fi.qualname} does not return re.compile(<accumulator>)")
+        self.prefix, suffix = self._wrap(v.args[0])
         for s in seen:
             flags = dict(s)
             out = []
             self._run(self.post, flags, out, None)
-            self.end[s] = out
+            self.end[s] = out + suffix
+        ends = {tuple(o[-1]) if o and o[-1][0] == "ANCHOR" else None for o in self.end.values()}
+        self.end_anchor = ends.pop()[1] if len(ends) == 1 and None not in ends else None
         self.init = init
         self.states = seen
 
@@ -481,14 +497,41 @@ class Transducer:
         for c in seq:
             out, s = self.table[(s, c)]
             steps.append(out)
+        if self.prefix:
+            steps = [self.prefix + steps[0]] + steps[1:] if steps else steps
+            if not steps:
+                return steps, self.prefix + self.end[s]
         return steps, self.end[s]
 
     # -- return ------------------------------------------------------------------
     def compile_call(self) -> ast.Call:
         v = self.ret.value
-        if not (isinstance(v, ast.Call) and self.mod.resolve(dotted(v.func) or "") == "re.compile" and v.args and isinstance(v.args[0], ast.Name) and v.args[0].id == self.acc):
+        if not (isinstance(v, ast.Call) and self.mod.resolve(dotted(v.func) or "") == "re.compile" and v.args):
             raise Unsupported(f"{self.fi.qualname} does not return re.compile(<accumulator>)")
+        self._wrap(v.args[0])
         return v
+
+    def _wrap(self, e: ast.expr) -> tuple[list, list]:
+        """`prefix + <accumulator> + suffix` handed to re.compile -> (prefix fragments, suffix fragments)."""
+        parts: list[ast.expr] = []
+
+        def flat(x):
+            if isinstance(x, ast.BinOp) and isinstance(x.op, ast.Add):
+                flat(x.left)
+                flat(x.right)
+            else:
+                parts.append(x)
+
+        flat(e)
+        at = [i for i, x in enumerate(parts) if isinstance(x, ast.Name) and x.id == self.acc]
+        if len(at) != 1:
+            raise Unsupported(f"{self.fi.qualname} does not return re.compile(<accumulator>)")
+        pre: list = []
+        suf: list = []
+        for i, x in enumerate(parts):
+            if i != at[0]:
+                (pre if i < at[0] else suf).extend(self._frags(x, None))
+        return pre, suf
 
     def compile_flags(self) -> set[str]:
         v = self.compile_call()
@@ -542,6 +585,10 @@ def _classify_item(op, av, text, dotall) -> tuple:
                 return ("ANY", lo, "inf" if hi == sre_constants.MAXREPEAT else hi, dotall)
             if str(sop) == "SUBPATTERN" and sav[0] is None and len(sav[3]) == 1 and str(sav[3][0][0]) == "ANY" and not sav[2]:
                 return ("ANY", lo, "inf" if hi == sre_constants.MAXREPEAT else hi, bool(sav[1] & sre_constants.SRE_FLAG_DOTALL))
+    if name == "AT":
+        sym = {"AT_END": "$", "AT_END_STRING": "\\Z", "AT_BEGINNING": "^", "AT_BEGINNING_STRING": "\\A"}.get(str(av))
+        if sym is not None:
+            return ("ANCHOR", sym)
     if name == "SUBPATTERN" and av[0] is None and len(av[3]) == 1 and not av[2] and not (av[1] & ~sre_constants.SRE_FLAG_DOTALL):
         return _classify_item(av[3][0][0], av[3][0][1], text, bool(av[1] & sre_constants.SRE_FLAG_DOTALL))
     raise Unsupported(f"regex fragment {text!r} contains {name}, which is neither a literal nor a repetition of ANY")
@@ -601,6 +648,11 @@ def _merge_any(fr: list) -> list:
         if out and f[:3] == ("ANY", 0, "inf") and out[-1][:3] == ("ANY", 0, "inf"):
             continue
         out.append(f)
+    # an end anchor after everything / a start anchor before everything is zero-width under fullmatch (no MULTILINE)
+    while out and out[-1][0] == "ANCHOR" and out[-1][1] in ("$", "\\Z"):
+        out.pop()
+    while out and out[0][0] == "ANCHOR" and out[0][1] in ("^", "\\A"):
+        out.pop(0)
     return out
 
 
@@ -655,6 +707,8 @@ def _show(fr: list) -> str:
             out.append(f"LIT({f[1]})")
         elif f[0] == "RAW":
             out.append(f"UNESCAPED({f[1]})")
+        elif f[0] == "ANCHOR":
+            out.append(f"ANCHOR({f[1]})")
         else:
             out.append("ANY*" if (f[1], f[2]) == (0, "inf") else f"ANY{{{f[1]},{f[2]}}}")
     return " ".join(out)
@@ -845,10 +899,18 @@ def r2_api(corpus: Corpus, rep: Report, tier: str):
         site = mw.module.site(r)
         if _alias_of_param(arg, mw) != p_name:
             raise Unsupported(f"match_with_wildcard matches `{short(arg, 40)}`, not the unmodified name parameter")
-        if meth != "fullmatch":
-            rep.violation("C19.R2", k, site, f"the name is tested with `{meth}` instead of `fullmatch`: a pattern then matches names that merely start with / contain a match (e.g. pattern 'a' matches 'ab')")
-        else:
+        try:
+            end_anchor = _transducer(corpus).end_anchor
+        except (Unsupported, AnchorMissing):
+            end_anchor = None
+        if meth == "fullmatch":
             rep.ok("C19.R2", k, site)
+        elif meth == "match" and end_anchor == "\\Z":
+            rep.ok("C19.R2", k, site, "`match` of an expression that ends in \\Z is a whole-name match")
+        elif meth == "match" and end_anchor == "$":
+            rep.violation("C19.R2", k, site, "the name is tested with `match` and the translated expression ends in `$`, which also matches just before a string-final line feed: pattern 'a' matches the name 'a\\n' (use fullmatch, or \\Z)")
+        else:
+            rep.violation("C19.R2", k, site, f"the name is tested with `{meth}` instead of `fullmatch`: a pattern then matches names that merely start with / contain a match (e.g. pattern 'a' matches 'ab')")
         # receiver: _create_regex(pattern)
         src = recv
         if isinstance(src, ast.Name):
@@ -965,7 +1027,8 @@ class Kinds:
         self.order_breaks: list[tuple[ast.For, str]] = []
         self.loops: list[ast.For] = []
         self.filters = [p for p in fi.params[1:] if p in FILTER_ROLE]
-        self.restricted: dict[ast.For, list[tuple[ast.expr, list]]] = {}  # loop -> alternatives of its iterable that are built from a filter
+        self.restricted: dict[ast.For, list[tuple[ast.expr, list]]] = {}
+        self.subs: list["Kinds"] = []  # generator helpers of the same module this function iterates  # loop -> alternatives of its iterable that are built from a filter
         if not fi.params:
             raise Unsupported(f"{fi.qualname} has no parameter")
         self.kinds[fi.params[0]] = root_kind
@@ -1038,6 +1101,33 @@ class Kinds:
             if it.func.id in ORDER_BREAKERS:
                 self.order_breaks.append((n, it.func.id))
             it = it.args[0]
+        helper = self.fi.module.functions.get(it.func.id) if isinstance(it, ast.Call) and isinstance(it.func, ast.Name) else None
+        if helper is not None and helper.fq != self.fi.fq and helper.is_generator() and len(it.args) == 1 and not it.keywords and len(helper.params) == 1:
+            # `for a, b, c in _iter_groups(mapping)`: the roles come from what the generator helper yields
+            k0 = self.kind_of(it.args[0])
+            if k0 is None:
+                raise Unsupported(f"{self.fi.qualname}: `{short(n.iter, 50)}` - the role of the argument is not known")
+            sub = Kinds(helper, self.rk, k0)
+            self.subs.append(sub)
+            ys = [y for y in helper.local_nodes() if isinstance(y, ast.Yield)]
+            if not ys or any(isinstance(y, ast.YieldFrom) for y in helper.local_nodes()):
+                raise Unsupported(f"{helper.qualname}: yields not understood")
+            shapes = set()
+            for y in ys:
+                elts = y.value.elts if isinstance(y.value, ast.Tuple) else [y.value]
+                shapes.add(tuple(sub.kind_of(e) if e is not None else None for e in elts))
+            if len(shapes) != 1:
+                raise Unsupported(f"{helper.qualname}: yields values of different roles")
+            shape = shapes.pop()
+            targets = n.target.elts if isinstance(n.target, (ast.Tuple, ast.List)) else [n.target]
+            if len(targets) != len(shape):
+                raise Unsupported(f"{self.fi.qualname}: loop target `{short(n.target, 40)}` does not fit what {helper.name} yields")
+            for tg, kk in zip(targets, shape):
+                self._bind(tg, kk, n)
+            n._c19_kind = f"{sub.loops[0]._c19_kind if sub.loops else k0} (through {helper.name})"  # type: ignore[attr-defined]
+            if getattr(sub, "key_split", None) is not None and getattr(self, "key_split", None) is None:
+                self.key_split = sub.key_split
+            return
         mode = "keys"
         base = it
         if isinstance(it, ast.Call) and isinstance(it.func, ast.Attribute) and it.func.attr in ("items", "keys", "values") and not it.args:
@@ -1108,10 +1198,34 @@ class Kinds:
                 raise Unsupported(f"{fi.qualname}: name {node.id} in `{short(e, 50)}` has no known role")
 
         fresh = ast.parse(ast.unparse(e), mode="eval").body  # a copy without the corpus' parent links
-        return unparse(T().visit(fresh))
+        return unparse(T().visit(_inline_pure_calls(fresh, fi.module)))
 
 
 _WHERE = {"first": "the first colon", "last": "the last colon", "every": "every colon"}
+
+
+def _inline_pure_calls(e: ast.expr, mod, depth: int = 0) -> ast.expr:
+    """Replace calls of same-module one-expression helpers (`def f(x): return <expr>`) by that expression."""
+
+    class Inl(ast.NodeTransformer):
+        def visit_Call(self, node):
+            self.generic_visit(node)
+            if depth < 3 and isinstance(node.func, ast.Name) and node.func.id in mod.functions and not node.keywords and not any(isinstance(a, ast.Starred) for a in node.args):
+                f = mod.functions[node.func.id]
+                body = [st for st in f.node.body if not (isinstance(st, ast.Expr) and isinstance(st.value, ast.Constant))] if not f.is_lambda else []
+                a = f.node.args if not f.is_lambda else None
+                if a is not None and len(body) == 1 and isinstance(body[0], ast.Return) and body[0].value is not None and not (a.vararg or a.kwarg or a.kwonlyargs) and len(f.params) == len(node.args):
+                    amap = {p_: ast.unparse(x) for p_, x in zip(f.params, node.args)}
+
+                    class Sub(ast.NodeTransformer):
+                        def visit_Name(self, nm):
+                            return ast.parse("(" + amap[nm.id] + ")", mode="eval").body if nm.id in amap else nm
+
+                    new = Sub().visit(ast.parse(ast.unparse(body[0].value), mode="eval").body)
+                    return _inline_pure_calls(ast.fix_missing_locations(new), mod, depth + 1)
+            return node
+
+    return Inl().visit(e)
 
 
 def _split_canon(v: ast.Call) -> str | None:
@@ -1199,7 +1313,9 @@ def r3_pairing(corpus: Corpus, rep: Report, tier: str):
                 rep.violation("C19.R3", k, fi.module.site(c), f"`{short(c, 60)}` matches the {kind} coordinate against the `{fparam}` filter (the {FILTER_ROLE[fparam]} pattern)")
             # the test must sit in an `if` inside the loop (or after the assignment) that binds the tested name
             st = cfg.stmt_of(c)
-            if not (isinstance(st, ast.If) and any(x is c for x in ast.walk(st.test))):
+            if isinstance(st, ast.Assign) and len(st.targets) == 1 and isinstance(st.targets[0], ast.Name) and st.value is c:
+                pass  # `matched = match_with_wildcard(x, f)`: judged where the flag variable guards the yield
+            elif not (isinstance(st, ast.If) and any(x is c for x in ast.walk(st.test))):
                 raise Unsupported(f"{fi.qualname}: `{short(c, 50)}` is not part of an if-test; its effect on the yield is not modelled")
             b = kd.binder.get(c.args[0].id)
             anc = list(ancestors(st))
@@ -1248,6 +1364,7 @@ def r3_pairing(corpus: Corpus, rep: Report, tier: str):
         for y in yields:
             st = cfg.stmt_of(y)
             have: set[str] = set()
+            literal: dict[str, ast.AST] = {}  # coordinate kind -> a plain-string test of it that guards the yield
             for t, pol in cfg.guards(st):
                 if pol and isinstance(t, ast.Call) and id(t) in tested and tested[id(t)][1]:
                     have.add(tested[id(t)][0])
@@ -1268,10 +1385,33 @@ def r3_pairing(corpus: Corpus, rep: Report, tier: str):
                             ks.add("?")
                     if len(ks) == 1 and "?" not in ks:
                         have.add(ks.pop())
+                elif pol and isinstance(t, ast.Name) and t.id not in fi.params and t.id not in kd.kinds:
+                    # a flag variable: every value it can have been given must itself be a passed wildcard test
+                    cover = None
+                    for d in _defs_of(fi, t.id):
+                        if isinstance(d, ast.Constant) and not d.value:
+                            continue  # `matched = False` cannot be the value on this (true) edge
+                        if isinstance(d, ast.BoolOp) and isinstance(d.op, ast.And) and any(isinstance(v_, ast.Name) and v_.id == t.id for v_ in d.values):
+                            continue  # `flag = flag and ...` can only narrow
+                        ks = {tested[id(d)][0]} if isinstance(d, ast.Call) and id(d) in tested and tested[id(d)][1] else set()
+                        if not ks:
+                            for kk in _literal_tests(d, kd):
+                                literal.setdefault(kk, d)
+                        cover = ks if cover is None else cover & ks
+                    have |= cover or set()
+                elif pol:
+                    for kk in _literal_tests(t, kd):
+                        literal.setdefault(kk, t)
             for kind in ("INV", "DOMAIN", "OTYPE", "NAME"):
                 k = f"{fi.fq}|yield is guarded by the {kind} test"
                 if kind in have:
                     rep.ok("C19.R3", k, fi.module.site(y))
+                elif kind in literal:
+                    esc = _escape_aware(fi, kd.filters)
+                    if esc is not None:
+                        raise Unsupported(f"{fi.qualname}: the {kind} is tested with `{short(literal[kind], 50)}` on some path and the function tests the pattern for the escape character (`{short(esc, 40)}`): a guarded literal fast path is not modelled")
+                    rep.violation("C19.R3", k, fi.module.site(literal[kind]), f"on some path the {kind} reaches the yield through `{short(literal[kind], 60)}` instead of match_with_wildcard: a plain string test cannot be equivalent to the wildcard match "
+                                  f"unless the backslash escape is taken into account, and the function never looks at it (pattern `a\\*` must match only the name `a*`, not names starting with `a\\`)")
                 else:
                     rep.violation("C19.R3", k, fi.module.site(y), f"an entry is yielded on a path that has not passed `match_with_wildcard(<{kind}>, <{kind} filter>)`: entries whose {kind} does not match are returned")
             # (c) InvMatch fields
@@ -1308,14 +1448,6 @@ def r3_pairing(corpus: Corpus, rep: Report, tier: str):
                     rep.violation("C19.R3", k, fi.module.site(given[f]), f"InvMatch.text is computed as `{got}` but from_sphinx (the native image of the same data) computes `{exp[f]}`: the two representations yield different entries")
                 else:
                     raise Unsupported(f"{fi.qualname}: InvMatch.{f} = `{got}` not understood (expected {exp[f]})")
-        # (d) iteration order
-        for loop in kd.loops:
-            k = f"{fi.fq}|iteration order over {loop._c19_kind}"
-            br = [w for l, w in kd.order_breaks if l is loop]
-            if br:
-                rep.violation("C19.R3", k, fi.module.site(loop), f"the loop iterates `{short(loop.iter, 50)}`: `{br[0]}` replaces the mapping's own (inventory) order")
-            else:
-                rep.ok("C19.R3", k, fi.module.site(loop))
         # (d2) the Sphinx `domain:type` key is cut where from_sphinx and the native loader cut it
         if rk == "sphinx":
             k = f"{fi.fq}|the domain:type key is split where from_sphinx / load split it"
@@ -1337,65 +1469,74 @@ def r3_pairing(corpus: Corpus, rep: Report, tier: str):
                               "(key `std:opt:long`) the Sphinx representation yields domain/type `std:opt`/`long` while the native representation of the same data has `std`/`opt:long`, so the two filters return different entries")
             else:
                 rep.ok("C19.R3", k, fi.module.site(mine[1]), f"{_WHERE[mine[0]]}, as {', '.join(w for w, _ in others)}")
-        # (e) every loop visits every entry of its level; the filter restricts the result only through match_with_wildcard
-        aware = _wildcard_aware(fi, kd.filters)
-        for loop in kd.loops:
-            k = f"{fi.fq}|loop over {loop._c19_kind} visits every entry"
-            part = [x for x, conds in kd.restricted.get(loop, []) if not _star_free(x, conds, kd.filters)]
-            if not part:
-                rep.ok("C19.R3", k, fi.module.site(loop), "literal-key shortcut only for patterns without '*'" if kd.restricted.get(loop) else "")
-            elif aware:
-                raise Unsupported(f"{fi.qualname}: the loop over {loop._c19_kind} may iterate `{short(part[0], 40)}` and the function tests the pattern for wildcard characters (`{short(aware, 40)}`) in a way that is not modelled")
-            else:
-                rep.violation(
-                    "C19.R3",
-                    k,
-                    fi.module.site(loop),
-                    f"the loop may iterate `{short(part[0], 50)}` instead of the whole {loop._c19_kind} mapping: the filter pattern is used as a literal key, so when it equals an entry's key "
-                    "(e.g. name `operator*` with pattern `operator*`, or name `a\\*` with pattern `a\\*`) the other entries are never tested and matching entries are dropped",
-                )
-        # (f) the enumeration is never cut short
-        k = f"{fi.fq}|enumeration is not cut short"
-        stops = [n for n in fi.local_nodes() if isinstance(n, (ast.Break, ast.Return)) and any(isinstance(a, ast.For) for a in ancestors(n))]
-        if not stops:
-            rep.ok("C19.R3", k, fi.site())
-        elif aware:
-            raise Unsupported(f"{fi.qualname}: `{type(stops[0]).__name__.lower()}` inside the filter loops next to a wildcard-character test (`{short(aware, 40)}`): a guarded early exit is not modelled")
-        else:
-            for st in stops:
-                rep.violation("C19.R3", k, fi.module.site(st), f"`{type(st).__name__.lower()}` inside the filter loops ends the enumeration early: entries after it are never tested, although a pattern with `*` (or an omitted pattern) can match any number of entries")
-        # (g) an entry is skipped only because one of its coordinates failed its test (or it has no domain:type key)
-        for st in fi.local_nodes():
-            if not isinstance(st, ast.Continue):
-                continue
-            p = parent(st)
-            if not (isinstance(p, ast.If) and st in p.body):
-                raise Unsupported(f"{fi.qualname}: unconditional / else-branch `continue`")
-
-            def skip_ok(t: ast.expr, pol: bool) -> bool:
-                """The condition can only hold when a wildcard test failed (or the key has no domain:type form)."""
-                if isinstance(t, ast.UnaryOp) and isinstance(t.op, ast.Not):
-                    return skip_ok(t.operand, not pol)
-                if isinstance(t, ast.BoolOp):
-                    # `a and b` holding needs every part to be a reason; `a and b` failing needs a failed part among tests only
-                    vals = t.values
-                    if isinstance(t.op, ast.And) == pol:
-                        # conjunction that holds: `f is not None and not match(x, f)` - the None test adds nothing
-                        real = [v for v in vals if not ((_filter_none_test(v, kd.filters) or (None, None))[1] is (not pol))]
-                        vals = real or vals
-                    return all(skip_ok(v, pol) for v in vals)
-                if isinstance(t, ast.Call) and id(t) in tested:
-                    return not pol
-                if isinstance(t, ast.Compare) and len(t.ops) == 1 and isinstance(t.left, ast.Constant) and t.left.value == ":" and kd.kind_of(t.comparators[0]) == "DOMOTYPE":
-                    return isinstance(t.ops[0], ast.NotIn) == pol
-                return False
-
-            if not skip_ok(p.test, True):
-                literal = [x for x in ast.walk(p.test) if isinstance(x, ast.Name) and x.id in kd.filters and not (isinstance(parent(x), ast.Call) and id(parent(x)) in tested) and _filter_none_test(parent(x), kd.filters) is None]
-                if literal and not aware:
-                    rep.violation("C19.R3", f"{fi.fq}|entries are skipped only after a failed wildcard test", fi.module.site(st), f"entries are skipped under `{short(p.test, 60)}`: the `{literal[0].id}` pattern is compared/looked up literally instead of being matched with its wildcard syntax, so entries that match the pattern are dropped")
+        for fx, kx in [(fi, kd)] + [(sk.fi, sk) for sk in kd.subs]:
+            # (d) iteration order
+            for loop in kx.loops:
+                k = f"{fx.fq}|iteration order over {loop._c19_kind}"
+                br = [w for l, w in kx.order_breaks if l is loop]
+                if br:
+                    rep.violation("C19.R3", k, fx.module.site(loop), f"the loop iterates `{short(loop.iter, 50)}`: `{br[0]}` replaces the mapping's own (inventory) order")
                 else:
-                    raise Unsupported(f"{fi.qualname}: entries are skipped under `{short(p.test, 50)}`, which is not a failed wildcard test")
+                    rep.ok("C19.R3", k, fx.module.site(loop))
+            # (e) every loop visits every entry of its level; the filter restricts the result only through match_with_wildcard
+            aware = _wildcard_aware(fx, kx.filters)
+            for loop in kx.loops:
+                k = f"{fx.fq}|loop over {loop._c19_kind} visits every entry"
+                part = [x for x, conds in kx.restricted.get(loop, []) if not _star_free(x, conds, kx.filters)]
+                if not part:
+                    rep.ok("C19.R3", k, fx.module.site(loop), "literal-key shortcut only for patterns without '*'" if kx.restricted.get(loop) else "")
+                elif aware:
+                    raise Unsupported(f"{fx.qualname}: the loop over {loop._c19_kind} may iterate `{short(part[0], 40)}` and the function tests the pattern for wildcard characters (`{short(aware, 40)}`) in a way that is not modelled")
+                else:
+                    rep.violation(
+                        "C19.R3",
+                        k,
+                        fx.module.site(loop),
+                        f"the loop may iterate `{short(part[0], 50)}` instead of the whole {loop._c19_kind} mapping: the filter pattern is used as a literal key, so when it equals an entry's key "
+                        "(e.g. name `operator*` with pattern `operator*`, or name `a\\*` with pattern `a\\*`) the other entries are never tested and matching entries are dropped",
+                    )
+            # (f) the enumeration is never cut short
+            k = f"{fx.fq}|enumeration is not cut short"
+            stops = [n for n in fx.local_nodes() if isinstance(n, (ast.Break, ast.Return)) and any(isinstance(a, ast.For) for a in ancestors(n))]
+            if not stops:
+                rep.ok("C19.R3", k, fx.site())
+            elif aware:
+                raise Unsupported(f"{fx.qualname}: `{type(stops[0]).__name__.lower()}` inside the filter loops next to a wildcard-character test (`{short(aware, 40)}`): a guarded early exit is not modelled")
+            else:
+                for st in stops:
+                    rep.violation("C19.R3", k, fx.module.site(st), f"`{type(st).__name__.lower()}` inside the filter loops ends the enumeration early: entries after it are never tested, although a pattern with `*` (or an omitted pattern) can match any number of entries")
+            # (g) an entry is skipped only because one of its coordinates failed its test (or it has no domain:type key)
+            for st in fx.local_nodes():
+                if not isinstance(st, ast.Continue):
+                    continue
+                p = parent(st)
+                if not (isinstance(p, ast.If) and st in p.body):
+                    raise Unsupported(f"{fx.qualname}: unconditional / else-branch `continue`")
+
+                def skip_ok(t: ast.expr, pol: bool) -> bool:
+                    """The condition can only hold when a wildcard test failed (or the key has no domain:type form)."""
+                    if isinstance(t, ast.UnaryOp) and isinstance(t.op, ast.Not):
+                        return skip_ok(t.operand, not pol)
+                    if isinstance(t, ast.BoolOp):
+                        # `a and b` holding needs every part to be a reason; `a and b` failing needs a failed part among tests only
+                        vals = t.values
+                        if isinstance(t.op, ast.And) == pol:
+                            # conjunction that holds: `f is not None and not match(x, f)` - the None test adds nothing
+                            real = [v for v in vals if not ((_filter_none_test(v, kx.filters) or (None, None))[1] is (not pol))]
+                            vals = real or vals
+                        return all(skip_ok(v, pol) for v in vals)
+                    if isinstance(t, ast.Call) and id(t) in tested:
+                        return not pol
+                    if isinstance(t, ast.Compare) and len(t.ops) == 1 and isinstance(t.left, ast.Constant) and t.left.value == ":" and kx.kind_of(t.comparators[0]) == "DOMOTYPE":
+                        return isinstance(t.ops[0], ast.NotIn) == pol
+                    return False
+
+                if not skip_ok(p.test, True):
+                    literal = [x for x in ast.walk(p.test) if isinstance(x, ast.Name) and x.id in kx.filters and not (isinstance(parent(x), ast.Call) and id(parent(x)) in tested) and _filter_none_test(parent(x), kx.filters) is None]
+                    if literal and not aware:
+                        rep.violation("C19.R3", f"{fx.fq}|entries are skipped only after a failed wildcard test", fx.module.site(st), f"entries are skipped under `{short(p.test, 60)}`: the `{literal[0].id}` pattern is compared/looked up literally instead of being matched with its wildcard syntax, so entries that match the pattern are dropped")
+                    else:
+                        raise Unsupported(f"{fx.qualname}: entries are skipped under `{short(p.test, 50)}`, which is not a failed wildcard test")
     rep.expect_min("C19.R3", 36, "2 functions x (4 pairings + 4 yield guards + 9 fields + 3-4 loops x 2 + 1)")
 
 
@@ -1437,6 +1578,33 @@ def _regex_filter(recv: ast.expr, fi: FunctionInfo, cr: FunctionInfo, g, depth: 
                 a = other
         if isinstance(a, ast.Name) and a.id in fi.params and not _defs_of(fi, a.id):
             return a.id
+    return None
+
+
+_STR_TESTS = {"startswith", "endswith", "__eq__", "__contains__", "find", "index"}
+
+
+def _literal_tests(e: ast.AST, kd) -> set[str]:
+    """Coordinate kinds that ``e`` tests with a plain string operation (`x.startswith(..)`, `x == ..`, `.. in x`)."""
+    out: set[str] = set()
+    coords = set(FILTER_ROLE.values())
+    for x in ast.walk(e):
+        if isinstance(x, ast.Call) and isinstance(x.func, ast.Attribute) and x.func.attr in _STR_TESTS and kd.kind_of(x.func.value) in coords:
+            out.add(kd.kind_of(x.func.value))
+        if isinstance(x, ast.Compare) and len(x.ops) == 1 and isinstance(x.ops[0], (ast.Eq, ast.NotEq, ast.In, ast.NotIn)):
+            for side in (x.left, x.comparators[0]):
+                if kd.kind_of(side) in coords and not (isinstance(x.comparators[0], ast.Constant) and x.comparators[0].value is None):
+                    out.add(kd.kind_of(side))
+    return out
+
+
+def _escape_aware(fi: FunctionInfo, filters: list[str]) -> ast.expr | None:
+    """A test of a filter pattern for the backslash (the escape character of the wildcard syntax)."""
+    for n in fi.local_nodes():
+        if isinstance(n, ast.Compare) and len(n.ops) == 1 and isinstance(n.ops[0], (ast.In, ast.NotIn)) and isinstance(n.left, ast.Constant) and isinstance(n.left.value, str) and "\\" in n.left.value and _mentions(n.comparators[0], filters):
+            return n
+        if isinstance(n, ast.Call) and any(_mentions(a, filters) for a in n.args) and (dotted(n.func) or "").startswith("re."):
+            return n
     return None
 
 
@@ -1561,6 +1729,16 @@ def _helper_component(e: ast.expr, fi: FunctionInfo, ctx):
     return None
 
 
+def _is_path_split(e: ast.expr, fi: FunctionInfo) -> bool:
+    """`<urlparse result>.path.split(":")` (possibly inside list()/tuple())."""
+    while isinstance(e, ast.Call) and isinstance(e.func, ast.Name) and e.func.id in ("list", "tuple") and len(e.args) == 1 and not e.keywords:
+        e = e.args[0]
+    if isinstance(e, ast.Call) and isinstance(e.func, ast.Attribute) and e.func.attr == "split" and len(e.args) == 1 and not e.keywords and isinstance(e.args[0], ast.Constant) and e.args[0].value == ":":
+        src = e.func.value
+        return isinstance(src, ast.Attribute) and src.attr == "path" and _urlparse_var(src.value, fi)
+    return False
+
+
 def _urlparse_var(e: ast.expr, fi: FunctionInfo) -> bool:
     if isinstance(e, ast.Name):
         d = _defs_of(fi, e.id)
@@ -1600,8 +1778,8 @@ def _value_role(e: ast.expr, fi: FunctionInfo, ctx=None, depth: int = 0) -> str 
         for d in _defs_of(fi, e.id):
             if isinstance(d, ast.Constant) and d.value is None:
                 continue
-            if isinstance(d, ast.Subscript) and isinstance(d.slice, ast.Constant) and isinstance(d.slice.value, int) and isinstance(d.value, ast.Name):
-                pd = _defs_of(fi, d.value.id)
+            if isinstance(d, ast.Subscript) and isinstance(d.slice, ast.Constant) and isinstance(d.slice.value, int) and (isinstance(d.value, ast.Name) or _is_path_split(d.value, fi)):
+                pd = _defs_of(fi, d.value.id) if isinstance(d.value, ast.Name) else [d.value]
                 while len(pd) == 1 and isinstance(pd[0], ast.Call) and isinstance(pd[0].func, ast.Name) and pd[0].func.id in ("list", "tuple") and len(pd[0].args) == 1 and not pd[0].keywords:
                     pd = [pd[0].args[0]]
                 if len(pd) == 1 and isinstance(pd[0], ast.Call) and isinstance(pd[0].func, ast.Attribute) and pd[0].func.attr == "split" and len(pd[0].args) == 1 and isinstance(pd[0].args[0], ast.Constant) and pd[0].args[0].value == ":":
@@ -1866,14 +2044,24 @@ class HrefParts:
                     if isinstance(src, ast.Attribute) and src.attr == "path" and _urlparse_var(src.value, fi):
                         cands.append(n.id)
                         self.path_text = unparse(src)
-        if len(cands) != 1:
+        if len(cands) > 1:
             raise Unsupported(f"{fi.qualname}: the list of href path parts was not identified ({cands})")
-        self.P = cands[0]
+        self.P = cands[0] if cands else None
+        if self.P is None:  # the split expression is used in place, without a local
+            inplace = [n for n in fi.local_nodes() if isinstance(n, ast.Call) and _is_path_split(n, fi) and not (isinstance(n.func, ast.Name))]
+            if not inplace:
+                raise Unsupported(f"{fi.qualname}: the list of href path parts was not identified")
+            self.path_text = unparse(inplace[0].func.value)
+
+    def _is_parts(self, e: ast.expr) -> bool:
+        if isinstance(e, ast.Name):
+            return self.P is not None and e.id == self.P
+        return _is_path_split(e, self.fi)
 
     # -- expression evaluation under "the path has p parts"
     def _check_subscripts(self, e: ast.AST, p: int) -> None:
         for x in ast.walk(e):
-            if isinstance(x, ast.Subscript) and isinstance(x.value, ast.Name) and x.value.id == self.P and isinstance(x.slice, ast.Constant) and type(x.slice.value) is int:
+            if isinstance(x, ast.Subscript) and self._is_parts(x.value) and isinstance(x.slice, ast.Constant) and type(x.slice.value) is int:
                 i = x.slice.value
                 if i >= p or i < -p:
                     raise _IndexErr()
@@ -1881,7 +2069,7 @@ class HrefParts:
     def _int(self, e: ast.expr, p: int):
         if isinstance(e, ast.Constant) and type(e.value) is int:
             return e.value
-        if isinstance(e, ast.Call) and isinstance(e.func, ast.Name) and e.func.id == "len" and len(e.args) == 1 and isinstance(e.args[0], ast.Name) and e.args[0].id == self.P:
+        if isinstance(e, ast.Call) and isinstance(e.func, ast.Name) and e.func.id == "len" and len(e.args) == 1 and self._is_parts(e.args[0]):
             return p
         if isinstance(e, ast.BinOp) and isinstance(e.op, (ast.Add, ast.Sub)):
             a, b = self._int(e.left, p), self._int(e.right, p)
@@ -1896,7 +2084,7 @@ class HrefParts:
     def _tok(self, e: ast.expr, state: dict, p: int):
         if isinstance(e, ast.Constant) and e.value is None:
             return "NONE"
-        if isinstance(e, ast.Subscript) and isinstance(e.value, ast.Name) and e.value.id == self.P and isinstance(e.slice, ast.Constant) and type(e.slice.value) is int:
+        if isinstance(e, ast.Subscript) and self._is_parts(e.value) and isinstance(e.slice, ast.Constant) and type(e.slice.value) is int:
             i = e.slice.value
             return ("PART", i if i >= 0 else p + i)
         if isinstance(e, ast.Name) and e.id in state:
@@ -1911,10 +2099,19 @@ class HrefParts:
         return "OTHER"
 
     def _seq(self, e: ast.expr, state: dict, p: int):
-        if isinstance(e, ast.Name) and e.id == self.P:
+        if self._is_parts(e):
             return [("PART", i) for i in range(p)]
-        if isinstance(e, (ast.Tuple, ast.List)) and not any(isinstance(x, ast.Starred) for x in e.elts):
-            return [self._tok(x, state, p) for x in e.elts]
+        if isinstance(e, (ast.Tuple, ast.List)):
+            out = []
+            for x in e.elts:
+                if isinstance(x, ast.Starred):
+                    inner = self._seq(x.value, state, p)
+                    if inner is None:
+                        return None
+                    out += inner
+                else:
+                    out.append(self._tok(x, state, p))
+            return out
         if isinstance(e, ast.BinOp) and isinstance(e.op, ast.Add):
             a, b = self._seq(e.left, state, p), self._seq(e.right, state, p)
             return None if a is None or b is None else a + b
@@ -1941,13 +2138,13 @@ class HrefParts:
         if isinstance(t, ast.UnaryOp) and isinstance(t.op, ast.Not) and unparse(t.operand) == self.path_text:
             return False
         try:
-            return _ev_len(t, {self.P: 0}, p)
+            return _ev_len(t, {self.P: 0} if self.P is not None else {}, p)
         except Unsupported:
             return None
 
     # -- statements
     def _touches(self, st: ast.AST) -> bool:
-        names = set(self.role) | {self.P}
+        names = set(self.role) | ({self.P} if self.P is not None else set())
         return any(isinstance(x, ast.Name) and x.id in names for x in ast.walk(st)) or any(x is self.call for x in ast.walk(st))
 
     def _run(self, stmts, state: dict, p: int) -> None:
@@ -2188,6 +2385,21 @@ def _base_url_check(corpus: Corpus, rep: Report) -> None:
         rep.ok("C19.R4", k, fi.module.site(stores[0]), f"{len(stores)} store(s)")
     else:
         rep.violation("C19.R4", k, fi.module.site(problems[0][0]), problems[0][1])
+    # which inventories are registered (and in which order) must not depend on the link being resolved:
+    # filter_inventories walks self._inventories in insertion order, and "the first match" is the first in that order
+    k = f"{fi.fq}|every configured inventory is registered in configuration order, whatever the link asks for"
+    cfg = get_cfg(fi)
+    fparams = [p_ for p_ in fi.params if p_ in FILTER_ROLE]
+    dep = None
+    for st in stores:
+        for t, pol in cfg.guards(st):
+            if _mentions(t, fparams):
+                dep = (st, t)
+    if dep is not None:
+        rep.violation("C19.R4", k, fi.module.site(dep[1]), f"`{short(dep[0], 50)}` only happens under `{short(dep[1], 60)}`, a test of the link's own filter: inventories are fetched and inserted into self._inventories in link-encounter order, "
+                      "so the order in which filter_inventories yields matches (and the entry an ambiguous inv: link is rendered to) depends on which links came earlier instead of on the configured inventory order")
+    else:
+        rep.ok("C19.R4", k, fi.module.site(loops[0]))
 
 
 def _base_url_chain_check(corpus: Corpus, rep: Report) -> None:
@@ -2537,7 +2749,7 @@ def r4_link_paths(corpus: Corpus, rep: Report, tier: str):
             rep.ok("C19.R4", k, where.module.site(uri), unparse(uri)[:100])
         else:
             rep.violation("C19.R4", k, where.module.site(uri), verdict)
-    rep.expect_min("C19.R4", 32, "13 pass-through keywords + 2 x (order, 3 count classes, first match, refuri)")
+    rep.expect_min("C19.R4", 33, "13 pass-through keywords + 2 x (order, 3 count classes, first match, refuri)")
 
 
 def _refuri_verdict(e: ast.expr, mv: str, rk: str, mod=None) -> str | None:
@@ -2636,6 +2848,11 @@ def mutants(corpus: Corpus):
         add("c19-dotall-reverted", "C19.R1", inv, comp, f"re.compile({unparse(comp.args[0])})", "wildcard fragment matches every character")
     else:
         out.append(("c19-dotall-reverted", "re.compile carries no flags on this tree"))
+    # class "an end anchor plus Pattern.match instead of a full match" (`$` also matches before a final line feed)
+    if comp is not None and inv.src.count(".fullmatch(") == 1:
+        out.append(Mutant("c19-dollar-anchor-with-match", "C19.R2", inv.rel, splice(inv.src, comp.args[0], f'{unparse(comp.args[0])} + "$"').replace(".fullmatch(", ".match("), expect="whole-name"))
+    else:
+        out.append(("c19-dollar-anchor-with-match", "re.compile / fullmatch not found in the expected shape"))
     # ---- R2
     mw = inv.func("match_with_wildcard")
     fm = find_node(mw, lambda n: isinstance(n, ast.Attribute) and n.attr == "fullmatch")
@@ -2707,6 +2924,23 @@ def mutants(corpus: Corpus):
     fsf = inv.func("from_sphinx")
     spn = find_node(fsf, lambda n: isinstance(n, ast.Call) and isinstance(n.func, ast.Attribute) and n.func.attr == "split" and len(n.args) == 2)
     add("c19-from-sphinx-split-at-last-colon", "C19.R3", inv, spn.func if spn is not None else None, f"{unparse(spn.func.value)}.rsplit" if spn is not None else "", "key is split where")
+    # class "a plain string test (startswith ...) as a fast path next to the wildcard matcher"
+    for mid, f_ in (("c19-sphinx-prefix-fast-path-flag", fs), ("c19-native-prefix-fast-path-flag", fn)):
+        iff = find_node(f_, lambda n: isinstance(n, ast.If) and isinstance(n.test, ast.Call) and unparse(n.test.func) == "match_with_wildcard" and unparse(n.test.args[1]) == "targets")
+        if iff is None:
+            out.append((mid, "name test not found as a plain if"))
+            continue
+        ind = " " * iff.col_offset
+        tv = unparse(iff.test.args[0])
+        seg = ast.get_source_segment(inv.src, iff)
+        tseg = ast.get_source_segment(inv.src, iff.test)
+        pre = (f"if targets is not None and targets.endswith('*') and '*' not in targets[:-1]:\n{ind}    matched = {tv}.startswith(targets[:-1])\n"
+               f"{ind}else:\n{ind}    matched = {tseg}\n{ind}")
+        add(mid, "C19.R3", inv, iff, pre + seg.replace(tseg, "matched", 1), "guarded by the NAME test")
+    iff = find_node(fn, lambda n: isinstance(n, ast.If) and isinstance(n.test, ast.Call) and unparse(n.test.func) == "match_with_wildcard" and unparse(n.test.args[1]) == "targets")
+    if iff is not None:
+        tv = unparse(iff.test.args[0])
+        add("c19-native-exact-name-short-circuit", "C19.R3", inv, iff.test, f"{tv} == targets or {unparse(iff.test)}", "guarded by the NAME test")
     # class "the joined domain:type key matched with one pattern"
     tst = find_node(fs, lambda n: isinstance(n, ast.If) and "domains" in unparse(n.test) and "otypes" in unparse(n.test))
     keyvar = find_node(fs, lambda n: isinstance(n, ast.Assign) and isinstance(n.value, ast.Call) and isinstance(n.value.func, ast.Attribute) and n.value.func.attr == "split")
@@ -2741,6 +2975,13 @@ def mutants(corpus: Corpus):
         add("c19-unparsable-href-warning-dropped", "C19.R4", base, hwarn[0] if hwarn else None, "pass", "destination cannot be parsed")
     else:
         out.append(("c19-unparsable-href-handler-falls-through", "no try around the href parse on this tree"))
+    # class "which inventories are registered depends on the link being resolved"
+    gm0 = base.func("DocutilsRenderer.get_inventory_matches")
+    ll = find_node(gm0, lambda n: isinstance(n, ast.For) and "inventories.items()" in unparse(n.iter))
+    if ll is not None and isinstance(ll.target, ast.Tuple) and isinstance(ll.target.elts[0], ast.Name):
+        kv = ll.target.elts[0].id
+        ind = " " * ll.body[0].col_offset
+        add("c19-inventories-loaded-on-demand", "C19.R4", base, ll.body[0], f"if not inventory.match_with_wildcard({kv}, invs):\n{ind}    continue\n{ind}" + ast.get_source_segment(base.src, ll.body[0]), "registered in configuration order")
     # class "the loaded inventory's base URL is not the configuration entry's"
     gm = base.func("DocutilsRenderer.get_inventory_matches")
     fc = find_node(gm, lambda n: isinstance(n, ast.Call) and unparse(n.func).endswith("fetch_inventory"))
